@@ -662,6 +662,68 @@ pub struct CompareOut {
     pub multi_boundary: usize,
     pub undefined_inputs: usize,
     pub thin_exempt: usize,
+    /// inputs not judged because some predicate a.x - b on their path cannot be evaluated exactly in f64
+    pub rounding_skipped: usize,
+}
+
+/// Can `a.x - b` be evaluated in f64 without any rounding, whatever the order of summation?  True iff all terms
+/// a_j x_j and b fit into one 53-bit window (highest set bit of the largest term minus lowest set bit of any
+/// term <= 52).  With small dyadic data this always holds; with data far from the origin (x ~ 2^30) and
+/// predicates pulled back through several layers it need not.
+pub fn dot_is_exact_in_f64(a: &[Q], x: &[Q], b: &Q) -> bool {
+    let mut hi = i64::MIN;
+    let mut lo = i64::MAX;
+    let mut sum_terms = 0;
+    let mut see = |t: &Q| -> bool {
+        if t.is_zero() {
+            return true;
+        }
+        match t.bit_span() {
+            Some((h, l)) => {
+                hi = hi.max(h);
+                lo = lo.min(l);
+                sum_terms += 1;
+                true
+            }
+            None => false,
+        }
+    };
+    for (aj, xj) in a.iter().zip(x) {
+        if !see(&(aj * xj)) {
+            return false;
+        }
+    }
+    if !see(b) {
+        return false;
+    }
+    // partial sums can carry into a few higher bits
+    sum_terms == 0 || (hi + 3 - lo) <= 52
+}
+
+impl Ref {
+    /// all guard rows of the decisions that the exact evaluation of `x` passes through
+    pub fn rows_on_path(&self, x: &[Q]) -> Vec<&Row> {
+        let mut out = Vec::new();
+        let mut cur = self;
+        loop {
+            match cur {
+                Ref::Leaf { .. } => return out,
+                Ref::Split(parts) => {
+                    let mut next = None;
+                    for (g, sub) in parts {
+                        out.extend(g.iter());
+                        if next.is_none() && g.iter().all(|r| r.holds(x)) {
+                            next = Some(sub);
+                        }
+                    }
+                    match next {
+                        Some(s) => cur = s,
+                        None => return out,
+                    }
+                }
+            }
+        }
+    }
 }
 
 impl Ref {
@@ -728,11 +790,17 @@ pub fn compare_tree_opts<const K: usize>(
             ));
         }
     };
-    let mut out = CompareOut { stats, inputs: 0, on_boundary: 0, multi_boundary: 0, undefined_inputs: 0, thin_exempt: 0 };
+    let mut out = CompareOut { stats, inputs: 0, on_boundary: 0, multi_boundary: 0, undefined_inputs: 0, thin_exempt: 0, rounding_skipped: 0 };
     let delta = Q::from_f64(1e-6);
     for p in inputs {
         if thin_rule && reference.thin_path(p, n, &delta) {
             out.thin_exempt += 1;
+            continue;
+        }
+        if mode.tol == 0.0 && !x.rows_on_path(p).iter().all(|r| dot_is_exact_in_f64(&r.a, p, &r.b)) {
+            // the library decides a.x - b <= 0 in f64: an input at which that value has to round is not a
+            // fair judge of which side of a hyperplane it is on
+            out.rounding_skipped += 1;
             continue;
         }
         let exp = reference.eval(p);
